@@ -136,7 +136,13 @@ def worker(prop, tier, idxs, outpath, seed):
                     fails.append(dict(fl, replayed=None))
                     continue
                 try:
-                    ok, detail = run.replay_failure(case, cfg, fl)
+                    if fl.get('exc') == 'OutOfBounds':
+                        # undefined behaviour: no float replay can confirm an out-of-bounds read (the brief's
+                        # exception to the replay rule); reported on the strength of the bounds-checked execution
+                        ok, detail = True, ('out-of-bounds buffer access in the transpiled kernel; undefined behaviour, '
+                                            'not replayable on the compiled extension (triaged by reading similarity.pyx)')
+                    else:
+                        ok, detail = run.replay_failure(case, cfg, fl)
                 except BaseException as e:
                     ok, detail = False, f'replay crashed {type(e).__name__}: {e}'
                 fl = dict(fl, replayed=bool(ok), replay_detail=str(detail)[:300])
